@@ -1,8 +1,8 @@
 (* C06 — lemmas and proofs about the transformer state machine of ApiDefs.v *)
-From Coq Require Import List String ZArith Bool Arith Lia.
-Require Import XV.GenApi XV.ApiDefs.
+From Coq Require Import List ZArith Bool Arith Lia.
+Require Import XV.ApiName XV.GenApi XV.ApiDefs.
 Import ListNotations.
-Close Scope string_scope.
+Close Scope name_scope.
 Open Scope list_scope.
 
 (* the generated switches are atoms for simpl/rewrite: proofs below hold for either value
@@ -20,11 +20,11 @@ Lemma mid_eqb_eq : forall a b, mid_eqb a b = true -> a = b.
 Proof.
   intros [c1 n1] [c2 n2]; unfold mid_eqb; simpl; intro H.
   apply andb_true_iff in H; destruct H as [H1 H2].
-  apply mclass_eqb_eq in H1; apply String.eqb_eq in H2; subst; reflexivity.
+  apply mclass_eqb_eq in H1; apply name_eqb_eq in H2; subst; reflexivity.
 Qed.
 
 Lemma mid_eqb_refl : forall a, mid_eqb a a = true.
-Proof. intros [c n]; unfold mid_eqb; simpl. rewrite String.eqb_refl. destruct c; reflexivity. Qed.
+Proof. intros [c n]; unfold mid_eqb; simpl. rewrite name_eqb_refl. destruct c; reflexivity. Qed.
 
 (* ------------------------------------------------------------------------------------------ *)
 (* reset_complete: finite sweep over the generated member list, lifted by forallb_forall       *)
